@@ -716,11 +716,35 @@ fn main() {
             let k = 134217728.0f64;
             let tri = Polygon::new(LineString::from(vec![(0.0, 0.0), (k + 1.0, k), (0.0, 2.0 * k), (0.0, 0.0)]), vec![]);
             let b: LineString<f64> = vec![(0.0, 0.0), ((k + 2.0) / 2.0, (k + 1.0) / 2.0)].into();
-            let m = b.relate(&tri);
-            if m.get(CoordPos::Inside, CoordPos::Inside) != Dimensions::OneDimensional || m.get(CoordPos::Inside, CoordPos::Outside) != Dimensions::Empty {
-                fail(format!("segment leaving a triangle vertex into its interior: matrix {:?}", m));
+            use std::str::FromStr;
+            let (m, t) = (b.relate(&tri), tri.relate(&b));
+            if m != geo::relate::IntersectionMatrix::from_str("1FF00F212").unwrap() || t != geo::relate::IntersectionMatrix::from_str("102F01FF2").unwrap() {
+                fail(format!("segment leaving a triangle vertex into its interior: matrices {:?} / {:?}", m, t));
             }
             println!("ok relate units");
+        }
+        "polygon_validation" => {
+            use geo::algorithm::validation::{InvalidPolygon, RingRole};
+            use geo::algorithm::Validation;
+            use geo_types::{LineString, Polygon};
+            let sq = |x0: f64, y0: f64, x1: f64, y1: f64| -> LineString<f64> { vec![(x0, y0), (x1, y0), (x1, y1), (x0, y1), (x0, y0)].into() };
+            let empty = || -> LineString<f64> { LineString::new(vec![]) };
+            // empty holes keep their position: nothing to report, and roles index interiors()
+            let good = Polygon::new(sq(0.0, 0.0, 10.0, 10.0), vec![empty(), sq(2.0, 2.0, 4.0, 4.0), empty(), sq(6.0, 6.0, 8.0, 8.0)]);
+            if !good.validation_errors().is_empty() {
+                fail(format!("valid polygon with empty holes between good ones: {:?}", good.validation_errors()));
+            }
+            let outside = Polygon::new(sq(0.0, 0.0, 10.0, 10.0), vec![empty(), sq(20.0, 20.0, 22.0, 22.0)]);
+            let errs = outside.validation_errors();
+            if errs != vec![InvalidPolygon::InteriorRingNotContainedInExteriorRing(RingRole::Interior(1))] {
+                fail(format!("hole number 1 lies outside the shell: reported {:?}", errs));
+            }
+            let overlap = Polygon::new(sq(0.0, 0.0, 10.0, 10.0), vec![sq(2.0, 2.0, 5.0, 5.0), empty(), sq(4.0, 4.0, 7.0, 7.0)]);
+            let errs = overlap.validation_errors();
+            if errs != vec![InvalidPolygon::IntersectingRingsOnAnArea(RingRole::Interior(0), RingRole::Interior(2))] {
+                fail(format!("holes 0 and 2 overlap: reported {:?}", errs));
+            }
+            println!("ok polygon validation");
         }
         _ => {
             eprintln!("unknown op {op}");
